@@ -139,8 +139,13 @@ def elaborate_frame(
     remove the rest of the stack trace and not replace it with anything,
     then return `PRUNE` (which is equivalent to an empty tuple).
     """
-    if "__tracebackhide__" in frame.pyframe.f_locals:
-        frame.hide = True
+    try:
+        if "__tracebackhide__" in frame.pyframe.f_locals:
+            frame.hide = True
+    except Exception:
+        # The namespace that a class body or exec()'d code runs in need not
+        # be a dict, nor support ``in`` at all. No marker we can see, then.
+        pass
     return None
 
 
